@@ -57,7 +57,7 @@ def atom_coq(a):
         return "ANInf"
     if isinstance(a, list):
         return "AOff"
-    return f"(AFin ({int(a)}))"
+    return f"(AFin ({int(a)})%Z)"
 
 
 def val_json(t):
@@ -177,8 +177,8 @@ class ToyGraph:
                 kind, c0, cs = nd["fun"]
                 # parents in the order of the coefficient list
                 ps = [self.index[p] for p in nd["parents"]]
-                fun = {"affine": f"(NAffine ({c0}) [{'; '.join(f'({c})' for c in cs)}])",
-                       "sum": f"(NSum ({c0}) [{'; '.join(f'({c})' for c in cs)}])", "log2": "NLog2"}[kind]
+                zl = "[" + "; ".join(f"({c})%Z" for c in cs) + "]"
+                fun = {"affine": f"(NAffine ({c0})%Z {zl})", "sum": f"(NSum ({c0})%Z {zl})", "log2": "NLog2"}[kind]
                 # the model wants parents as a list; keep coefficient order, the check of WF does not need sortedness
             else:
                 ps, fun = [], "NLog2"
@@ -287,6 +287,16 @@ def same_tensor(a, b):
     return bool(torch.equal(a, b))
 
 
+def probe_of(st):
+    """A harness-made copy of a state (same DAG object, same tensors, own dictionaries): reading it does not disturb
+    the state under test and does not go through State.clone / deepcopy."""
+    from leaspy.variables.state import State
+    p = State(st.dag, auto_fork_type=st.auto_fork_type)
+    p._values = dict(st._values)
+    p._last_fork = None if st._last_fork is None else dict(st._last_fork)
+    return p
+
+
 class Session:
     """Real states of one graph + bookkeeping.  `fx` says which model the discipline flags are computed for
     (False: the code as it is; True: after the proposed repair of F1)."""
@@ -351,7 +361,7 @@ class Session:
                 return ("done",)
             if kind == "clone":
                 self.states.append(st.clone(disable_auto_fork=bool(op[2]), keep_last_fork=bool(op[3])))
-                self.taint.append(set(self.taint[k]) if op[3] or True else set())
+                self.taint.append(set(self.taint[k]))
                 return ("done",)
             if kind == "mode":
                 st.auto_fork_type = None if op[2] is None else StateForkType[op[2]]
@@ -408,7 +418,7 @@ class Session:
     def check_fresh(self, j, step):
         st = self.states[j]
         fresh = self.fresh_like(st)
-        probe = copy.deepcopy(st)
+        probe = probe_of(st)
         for name in self.G.order:
             a = self.read(probe, name)
             b = self.read(fresh, name)
